@@ -242,6 +242,22 @@ def shape_scenarios(seed):
             steps=[con, {"a": "freeze_mgr", "t": 40, "o": 1},
                    {"a": "burst", "t": 350 + hold, "o": 1, "reqs": [R(1), R(2)]},
                    {"a": "thaw_mgr", "t": 100, "o": 1}, {"a": "sleep", "t": 200}])
+    # where the exchange stalls: the substream is open, the request is larger than what the yamux window (256 KiB)
+    # lets in flight, and the proxy holds the bytes towards the responder after N bytes while the connection stays
+    # up (tcp / ws): the write phase cannot complete and has to end in a timeout
+    for off in (2000, 100000, 400000):
+        add("request-write-stalls-after-%d" % off, links=[L(1, 2, "proxy"), L(2, 1)], max_size=2200000, timeout_ms=500, keep_alive_ms=60000,
+            steps=[con, {"a": "freeze", "t": 40, "from": 1, "to": 2, "dir": "up", "after": off},
+                   {"a": "burst", "t": 5, "o": 1, "reqs": [R(1, dial=False, size=1500000), R(2, dial=False, size=2000000)]},
+                   {"a": "sleep", "t": 300}])
+    add("request-write-stalls-cancel", links=[L(1, 2, "proxy"), L(2, 1)], max_size=2200000, timeout_ms=500, keep_alive_ms=60000,
+        steps=[con, {"a": "freeze", "t": 40, "from": 1, "to": 2, "dir": "up", "after": 50000},
+               {"a": "burst", "t": 5, "o": 1, "reqs": [R(1, dial=False, size=1500000), R(2, dial=False, size=1500000)]},
+               {"a": "cancel", "t": 150, "o": 1, "k": 1}, {"a": "sleep", "t": 300}])
+    add("request-write-stalls-then-thaw", links=[L(1, 2, "proxy"), L(2, 1)], max_size=2200000, timeout_ms=800, keep_alive_ms=60000,
+        steps=[con, {"a": "freeze", "t": 40, "from": 1, "to": 2, "dir": "up", "after": 100000},
+               {"a": "burst", "t": 5, "o": 1, "reqs": [R(1, dial=False, size=1500000, rsize=1000000)]},
+               {"a": "thaw", "t": 250, "from": 1, "to": 2}])
     # short keep-alive: the connection is closed under the protocol's feet, later requests redial
     add("keepalive-redial", keep_alive_ms=200,
         steps=[{"a": "burst", "o": 1, "reqs": [R(1)]}, {"a": "burst", "t": 700, "o": 1, "reqs": [R(2)]},
